@@ -65,6 +65,14 @@ def _case(draw):
 
 def _large_cases(th):
     yield {'k': 'single', 'spec': D.large_curated_spec(), 'factor': 2.5, 'ncc': 3, 'large': True}
+    # 1001 templates (one more than a round block size); a curated probe with more channels than
+    # the neighbourhood size, whitened
+    yield {'k': 'single', 'spec': D.large_curated_spec(nt=1001, ns=3100, seed=14), 'factor': 2,
+           'ncc': 4, 'large': True}
+    mc = D.many_channels_spec(40, nt=5, ns=120, seed=15)
+    mc['curation'] = [{'op': 'merge', 'a': 0, 'b': 1}, {'op': 'split', 'a': 1, 'cut': 3,
+                                                         'interleave': True}]
+    yield {'k': 'single', 'spec': mc, 'factor': 1, 'ncc': 12, 'large': True}
     # spike depths across the 50 000-spike batches of get_depths
     yield {'k': 'single', 'spec': D.large_spec(50001, seed=8), 'factor': 1, 'ncc': 4, 'large': True}
     if th:
